@@ -126,6 +126,9 @@ def run(ctx):
                         return any(s_[0] == "call" and s_[1].endswith("fs::read_to_string") for s_ in walk(x))
                     applied = sorted({s_[1].split("::")[-1] for s_ in walk(name) if s_[0] == "call" and contains_read(s_)})
                     extra = [f for f in applied if f not in ALLOWED]
+                    # ... and by the std function of that name: a function of this crate called `trim_end` trims what it likes
+                    from engine.lenalg import _is_std
+                    extra += sorted({s_[1] for s_ in walk(name) if s_[0] == "call" and contains_read(s_) and not _is_std(s_[1])})
                     ctx.check(not extra and "read_to_string" in applied, R, ("Thread", "name-unaltered"), eb.where(bi, si),
                               "the stored name is the comm content with only trailing characters removed (%s)" % ", ".join(applied),
                               "the kernel's thread name is altered before it is stored: %s applied to the comm content (only trailing trimming is expected)" % ", ".join(extra or ["?"]))
